@@ -171,7 +171,7 @@ def run(ctx):
     else:
         n = 0
         for size in SIZES:
-            for _ in range(1500):
+            for _ in range(5000):
                 n += 1
                 if ctx.mine(n):
                     run_case(ctx, gen_case(rng, size, steps=8))
